@@ -230,6 +230,12 @@ pub fn sched_hook(ev: Event) {
 	if DETACHED.with(|d| d.get()) {
 		return;
 	}
+	// the scheduler's own bookkeeping (trace recording, condvar waits) runs on the hooked thread: keep it out of the
+	// audio-thread allocation monitor
+	let _pause = crate::rig::PauseAllocCount::new();
+	sched_hook_inner(ev)
+}
+fn sched_hook_inner(ev: Event) {
 	match ev {
 		Event::Sync(site) => {
 			let mut g = lock();
@@ -537,7 +543,7 @@ pub struct ExploreStats {
 /// Explore all schedules of `body` with at most `bound` preemptions (None = unbounded).
 /// `body(prefix)` builds fresh objects, runs one execution with `Exec::begin(cfg, prefix)` and returns
 /// the run result plus the harness' observation; `judge` is called for every completed execution.
-pub fn explore<O>(
+pub fn explore<O: PartialEq + std::fmt::Debug>(
 	bound: Option<u32>,
 	max_schedules: u64,
 	body: &mut dyn FnMut(&[u8]) -> (RunResult, O),
@@ -565,6 +571,20 @@ pub fn explore<O>(
 		}
 		let (res, obs) = body(&prefix);
 		stats.schedules += 1;
+		if stats.schedules == 1 {
+			// determinism is checked, not assumed: the first schedule once more, same observation and same trace
+			let (res2, obs2) = body(&prefix);
+			if obs2 != obs || res2.trace != res.trace {
+				stats.error = Some(format!(
+					"the harness is not deterministic: replaying the first schedule gave a different observation or trace ({:?} / {} points vs {:?} / {} points)",
+					obs,
+					res.trace.len(),
+					obs2,
+					res2.trace.len()
+				));
+				break;
+			}
+		}
 		if let Some(d) = &res.divergence {
 			stats.error = Some(d.clone());
 			break;
@@ -623,4 +643,19 @@ pub fn fmt_schedule(res: &RunResult) -> String {
 #[allow(dead_code)]
 pub fn arc_mutex<T>(t: T) -> Arc<Mutex<T>> {
 	Arc::new(Mutex::new(t))
+}
+
+/// wrapper for observation fields that must not take part in the determinism comparison
+/// (e.g. counters that a released, no longer controlled thread keeps changing)
+#[derive(Clone, Default)]
+pub struct NoCmp<T>(pub T);
+impl<T> PartialEq for NoCmp<T> {
+	fn eq(&self, _: &Self) -> bool {
+		true
+	}
+}
+impl<T: std::fmt::Debug> std::fmt::Debug for NoCmp<T> {
+	fn fmt(&self, f: &mut std::fmt::Formatter<'_>) -> std::fmt::Result {
+		self.0.fmt(f)
+	}
 }
